@@ -33,6 +33,8 @@ type fsHandle struct {
 	closed bool
 	name   Str
 	write  bool
+	read   bool
+	append bool
 }
 
 type fsOp struct {
@@ -145,11 +147,32 @@ func (f *fsModel) write(x *Exec, args []Value) Value {
 	if idx == f.failWrite {
 		// a failing write may have transferred a prefix of the data: half of it
 		n := len(data) / 2
-		h.file.data = append(append([]Value{}, h.file.data...), data[:n]...)
+		h.writeAtPos(data[:n])
 		return ret2(mkI64(int64(n)), x.mkError("write "+describe(h.name)+": no space left on device"))
 	}
-	h.file.data = append(append([]Value{}, h.file.data...), data...)
+	h.writeAtPos(data)
 	return ret2(mkI64(int64(len(data))), Iface{})
+}
+
+// writeAtPos stores data at the handle's offset (the end of the file in append mode), overwriting what is
+// there and extending the file as needed; the offset moves past the written bytes.
+func (h *fsHandle) writeAtPos(data []Value) {
+	nd := append([]Value{}, h.file.data...)
+	if h.append {
+		h.pos = len(nd)
+	}
+	for len(nd) < h.pos {
+		nd = append(nd, Int{W: 8}) // a hole reads as zero bytes
+	}
+	for i, b := range data {
+		if h.pos+i < len(nd) {
+			nd[h.pos+i] = b
+		} else {
+			nd = append(nd, b)
+		}
+	}
+	h.pos += len(data)
+	h.file.data = nd
 }
 
 func (f *fsModel) intrinsic(x *Exec, name string, args []Value) (Value, bool) {
@@ -164,6 +187,67 @@ func (f *fsModel) intrinsic(x *Exec, name string, args []Value) (Value, bool) {
 			return ret2(Ptr{}, x.notExist("open", nm)), true
 		}
 		return ret2(f.newHandle(x, fl, nm, false), Iface{}), true
+	case "os.OpenFile":
+		nm := args[0].(Str)
+		flag := int(args[1].(Int).conc())
+		const oWRONLY, oRDWR, oCREATE, oEXCL, oTRUNC, oAPPEND = 0x1, 0x2, 0x40, 0x80, 0x200, 0x400
+		f.step(x, "open", nm)
+		fl := f.find(x, nm)
+		switch {
+		case fl == nil && flag&oCREATE == 0:
+			return ret2(Ptr{}, x.notExist("open", nm)), true
+		case fl != nil && flag&oCREATE != 0 && flag&oEXCL != 0:
+			return ret2(Ptr{}, x.mkError("open "+describe(nm)+": file exists")), true
+		case fl == nil:
+			fl = &fsFile{path: cleanPath(nm)}
+			f.files = append(f.files, fl)
+		}
+		wr := flag&(oWRONLY|oRDWR) != 0
+		if flag&oTRUNC != 0 && wr {
+			fl.data = nil
+		}
+		hv := f.newHandle(x, fl, nm, wr)
+		h := f.handles[len(f.handles)-1]
+		h.read = flag&oWRONLY == 0
+		h.append = flag&oAPPEND != 0
+		return ret2(hv, Iface{}), true
+	case "(*os.File).Seek":
+		h := f.handle(args[0])
+		off, whence := int(int64(args[1].(Int).conc())), int(args[2].(Int).conc())
+		switch whence {
+		case 1:
+			off += h.pos
+		case 2:
+			off += len(h.file.data)
+		}
+		if off < 0 {
+			return ret2(mkI64(0), x.mkError("seek "+describe(h.name)+": invalid argument")), true
+		}
+		h.pos = off
+		return ret2(mkI64(int64(off)), Iface{}), true
+	case "(*os.File).Truncate", "os.Truncate":
+		var fl *fsFile
+		var nm Str
+		if name == "os.Truncate" {
+			nm = args[0].(Str)
+			if fl = f.find(x, nm); fl == nil {
+				return x.notExist("truncate", nm), true
+			}
+		} else {
+			h := f.handle(args[0])
+			fl, nm = h.file, h.name
+		}
+		f.step(x, "truncate", nm)
+		size := int(int64(args[1].(Int).conc()))
+		if size < 0 {
+			return x.mkError("truncate " + describe(nm) + ": invalid argument"), true
+		}
+		nd := append([]Value{}, fl.data...)
+		for len(nd) < size {
+			nd = append(nd, Int{W: 8})
+		}
+		fl.data = nd[:size]
+		return Iface{}, true
 	case "os.CreateTemp":
 		dir, pat := args[0].(Str), concStr(args[1])
 		f.tmpSeq++
